@@ -483,5 +483,5 @@ def run_typefields(ctx, rep, rid="R-C02-typefields"):
                     while n is not None:
                         path.append(short[n])
                         n = parent[n]
-                    r.finding(inst + "|not-looked-up via " + path[1], where, "a %s reached through %s is read by no override of the type resolver: an undeclared type named there is accepted (no P0022)"
+                    r.finding(inst + "|not-looked-up", where, "a %s reached through %s is read by no override of the type resolver: an undeclared type named there is accepted (no P0022)"
                               % (key[0], " <- ".join(path)))
